@@ -6,6 +6,7 @@ import witness
 import codec_rules
 import page_rules
 import xml_rules
+import bounds_rules
 import validation_rules
 
 TECHNIQUE = "MIR provenance of the section header offsets, must-pass-through / dominance order of the section patch protocol, announce/drain pairing table on last_flush, length-accounting dataflow, reader yield-count typestate, bit-width formula agreement of writer and reader, compile-fail witnesses for section interleaving"
@@ -42,6 +43,7 @@ def run(ctx):
         pcw_rules.data_offset_provenance(ctx, prog, "R1")
         pcw_rules.finalize_protocol(ctx, prog, "R2")
         pcw_rules.accept_once(ctx, prog, "R3")
+        bounds_rules.validation_before_update(ctx, prog, "R3")
         pcw_rules.packet_rules(ctx, prog, "R4", "R5", "R6")
         pcw_rules.raw_reader_count(ctx, prog, "R7")
         pcw_rules.pop_point_order(ctx, prog, "R7")
